@@ -56,6 +56,11 @@ def generate(rng, tier):
         for xd, yd in itertools.product((0, 1), (0, 1)):
             cases.append({"group": "rebin", "method": 22, "name": "rebin", "x": [0, 1, 1, 2, 3, 4], "y": [3, 1, 2, 2, 5, 4], "dy": None, "dt": [xd, yd, 0, 1],
                           "desc": {"group": "rebin", "method": "rebin", "dtypes": "%d%d" % (xd, yd)}})
+        for k in range(3 if tier == "quick" else 12):
+            n = rng.choice([5, 9, 30])
+            cases.append({"group": "sequence", "method": 24, "name": "reuse of one object", "x": [], "y": [], "dy": None, "dt": [1, 1, 0, 1],
+                          "n": n, "seed": rng.randint(0, 10 ** 6), "which": k % 3,
+                          "desc": {"group": "sequence", "method": ["Transformer", "FourierFilter", "Converter"][k % 3], "dtypes": "11"}})
         for xd, yd, dd in itertools.product((0, 1), (0, 1), (0, 1, 2)):
             cases.append({"group": "crop", "method": 23, "name": "apply_cropping", "x": x, "y": y, "dy": dy, "dt": [xd, yd, dd, 1],
                           "desc": {"group": "crop", "method": "apply_cropping", "dtypes": "%d%d%d" % (xd, yd, dd)}})
@@ -106,7 +111,49 @@ def kinds(out):
     return ["none" if o is None else np.asarray(o).dtype.kind for o in out]
 
 
+def sequence_calls(pystog, case):
+    """a list of closures on ONE object and, for each, the same call on a fresh object"""
+    import random
+
+    r = random.Random(case["seed"])
+    n = case["n"]
+    lo, hi = 0.5, 20.0
+    grids = [np.linspace(lo, hi, n), np.geomspace(lo, hi, n), np.sort(np.concatenate(([lo, hi], np.array([r.uniform(lo, hi) for _ in range(n - 2)])))),
+             np.linspace(lo, hi, n)]
+    outs = [np.linspace(0.1, 5.0, 7), np.sort(np.concatenate(([0.1, 5.0], np.array([r.uniform(0.1, 5.0) for _ in range(5)])))), np.linspace(0.1, 5.0, 7)]
+    kw = L.kwargs_of(MAT)
+    calls = []
+    for i, g in enumerate(grids):
+        y = np.cos(g * 1.3) + 1.0
+        xo = outs[i % len(outs)]
+        if case["which"] == 0:
+            calls.append(lambda o, g=g, y=y, xo=xo: o.S_to_g(g, y, xo, **kw)[1:])
+            make = pystog.Transformer
+        elif case["which"] == 1:
+            rr = np.linspace(0.0, 4.0, 9) if i % 2 == 0 else np.array([0.0, 0.3, 0.9, 1.4, 2.0, 2.2, 3.0, 3.9, 4.0])
+            gr = np.sin(rr) + 0.2
+            calls.append(lambda o, g=g, y=y, rr=rr, gr=gr: [v for j, v in enumerate(o.g_using_S(rr, gr, g, y, 1.5, **kw)) if j in (1, 3, 5)])
+            make = pystog.FourierFilter
+        else:
+            calls.append(lambda o, g=g, y=y: o.S_to_DCS(g, y, None, **kw))
+            make = pystog.Converter
+    return make, calls
+
+
+def run_sequence(pystog, case):
+    make, calls = sequence_calls(pystog, case)
+    shared = make()
+    ok = True
+    for c in calls:
+        a = [np.asarray(v) for v in c(shared)]
+        b = [np.asarray(v) for v in c(make())]
+        ok = ok and all(u.tobytes() == v.tobytes() for u, v in zip(a, b))
+    return {"error": None, "kinds": ["f", "f"], "mutated": [], "reproducible": bool(ok), "same_as_float": True, "out": []}
+
+
 def run_impl(pystog, case):
+    if case["group"] == "sequence":
+        return run_sequence(pystog, case)
     call, args = build_call(pystog, case)
     before = [(a.tobytes(), a.dtype.str) for a in args]
     try:
@@ -159,6 +206,8 @@ def oracle(pystog, case, res):
         return "%s modified its argument #%r" % (name, res["mutated"])
     if res["error"]:
         return "%s raised %s for integer input" % (name, res["error"])
+    if not res["reproducible"] and case["group"] == "sequence":
+        return "%s: the same call gives a different result on an object that served other calls before than on a fresh %s" % (case["name"], case["desc"]["method"])
     if not res["reproducible"]:
         return "%s is not reproducible (differs after freed heap blocks were refilled)" % name
     if not res["same_as_float"]:
